@@ -296,7 +296,9 @@ fn gen_struct(r: &mut Rng, u: &Universe, cfg: &GenCfg, name: String) -> StructDe
     let generic = cfg.allow_generic && shape != Shape::Unit && r.chance(10);
     let transparent = !generic && shape != Shape::Unit && r.chance(7);
     if transparent {
-        let ty = sanitize(field_ty(r, u, cfg, 1));
+        // (newtypes around the string and byte-string types - borrowed, Cow and owned, with and without a field-level codec -
+        // are what transparent is mostly used for, and they take their own path through the macros: every second one)
+        let ty = if r.chance(50) { if cfg.allow_lifetimes { r.pick(&[Ty::CowStr, Ty::CowBytes, Ty::Str, Ty::BytesSlice, Ty::ByteSliceRef, Ty::BytesVec, Ty::BytesArr4, Ty::ByteVec, Ty::String, Ty::CowBytes, Ty::CowStr]).clone() } else { r.pick(&[Ty::BytesVec, Ty::BytesArr4, Ty::ByteVec, Ty::String]).clone() } } else { sanitize(field_ty(r, u, cfg, 1)) };
         let ty = if contains_field_level_codec(&ty) && ty_has_nil(&ty) { Ty::U32 } else { ty };
         let b = (matches!(ty, Ty::CowStr | Ty::CowBytes) && r.chance(60)) || must_be_b(&ty, u);
         return StructDef { name, shape, encoding: None, tag: None, transparent: true, generic: false,
